@@ -125,6 +125,14 @@ impl SpecIndex {
                         } else {
                             continue;
                         }
+                        // a named element whose top-level group is a choice cannot hold anything
+                        // beside its SHORT-NAME in a strictly valid document
+                        if s.name != ElementName::ShortName
+                            && types[t].etype.content_mode() == ContentMode::Choice
+                            && types[t].etype.is_named_in_version(versions()[vi])
+                        {
+                            continue;
+                        }
                         depth[vi][s.tid] = depth[vi][t] + 1;
                         witness[vi][s.tid] = Some((t, s.name));
                         q.push_back(s.tid);
